@@ -46,6 +46,15 @@ CLAIMED = {
          'repeated, interleaved and cross-process (different PYTHONHASHSEED) runs are compared byte for byte.',
          'Trusted: Lean kernel, CPython, pickle, the OS. The theorem is about the abstract machine; its link to the code is '
          'the frame check.', 'DESIGN.md section 4 C05'),
+ 'C16': ('Lean 4 theorems over every ordered field (invariant carried through elimination and forward substitution; '
+         'M-matrix rows) tied to RSMDef.diffusion_equation and both invert copies by exact rational differential execution',
+         'Proof: bottom Dirichlet value, equal top levels and interior conservation for every returning call; discrete '
+         'maximum principle and definedness for every admissible input (cd>=0, positive spacing/density); solver exactness and '
+         'uniqueness for every system with non-zero pivots, in particular every strictly diagonally dominant one. The model '
+         'mirrors Python error behaviour and is checked equal to the real code on exact rationals; a live float run checks '
+         'the same statements with rounding tolerance.',
+         'Trusted: Lean kernel, standard axioms, fracexec. Rounding in doubles is outside the theorem (live run uses a '
+         '1e-9 relative tolerance).', 'DESIGN.md section 4 C16'),
 }
 NOT_YET = 'check not built yet in this session (work in progress; see DESIGN.md section 4)'
 
